@@ -130,6 +130,36 @@ CHECKS.append(
              "for a pair, records straddling a range edge, the side at an exact tie, end of explicit alleles). Not claimed: multi-allelic records, sites-only VCFs, GATK/MuTect "
              "header pairing, het_frac_by_ranges, cn1/cn2 (C02), allele-frequency HMM re-segmentation. Premises: tables sorted, depths <= 1000 (<= 40 with tumor_boost), ranges "
              "grouped by chromosome. Open finding F-C18-no-het-falls-back-to-all."})
+CHECKS.append(
+    {"id": "C13", "level": "model_checking",
+     "technique": "TLA+ spec (Access.tla over Intervals.tla, ContigNames.tla) + TLC: FASTA line scanner as a state machine with an inductive invariant, exhaustive small scope replayed into cnvlib.access through real FASTA/BED files, TLC trace validation of random runs",
+     "design_ref": "DESIGN.md section 8 C13, 13",
+     "text": "TLC runs get_regions' scanner as a state machine (one action per line kind) over every FASTA text of <=2 sequences/total length <=6 over {N,n,A} at widths 1..4, "
+             "checks it against MaximalRuns of the concatenated text, and enumerates do_access over exclude sets, gap sizes, contig names and skip_noncanonical; every enumerated "
+             "call is written as real files and replayed, and random FASTA/BED/gap/name cases are judged by TLC against the same clauses (runs exact, excludes removed, joined "
+             "iff gap < min, non-empty, sorted, separated, contigs dropped by the name rule).",
+     "note": "Only 'N' is masked sequence. Premises: text starts with a header, distinct names, positive-width exclude rows. CLI/BED writing not covered. Trusted: TLC, file "
+             "encoding of lines<->codes, Python universal newlines."})
+CHECKS.append(
+    {"id": "C12", "level": "model_checking",
+     "technique": "TLA+ spec (Bins.tla over Intervals.tla, ContigNames.tla) + TLC exhaustive small scopes (antitarget on a grid whose unit is 500/Pad bases) replayed into cnvlib.target/antitarget + TLC trace validation of random tables at real scale",
+     "design_ref": "DESIGN.md section 8 C12, 13",
+     "text": "TLC enumerates bait tables (incl. zero-width, nested, abutting) x split x average x label options for do_target and target/access tables, no-access, contig/naming "
+             "combinations and (avg,min) pairs for do_antitarget, checks the modelled algorithm against the partition clauses, and every state is replayed into the real code; "
+             "random real-scale tables (distances 499..1001, stretches of min, min-1, 1.5 avg) are judged the same way.",
+     "note": "Two open known findings (NoCanonicalTarget, MinAboveSplitBin). Gene names not judged (count/coordinates only; shorten_labels modelled for drift). Constants "
+             "500/150000 are given to the spec by the harness. Premises: sorted tables, positive-width targets, non-empty access sharing a contig with the targets."})
+CHECKS.append(
+    {"id": "C16", "level": "model_checking",
+     "technique": "TLA+ spec (Genes.tla) + TLC exhaustive small scope (MC_Genes: label sequences x row-index modes x ops x parameters x segment cut sets) replayed into cnvlib + TLC trace validation of structured random tables",
+     "design_ref": "DESIGN.md section 8 C16, 13",
+     "text": "TLC enumerates every bin table of the scope and checks the modelled by_gene / group_by_genes / squash_genes / do_breaks algorithms (A-layer) against the statement "
+             "(P-layer). Every enumerated state is replayed into the real code, and TLC judges its output against the P-layer: per-gene first..last, Antitarget stretches, order, "
+             "each bin once; genemetrics rows, coordinates, weights and exact-rational means; by-segment parts; breaks genes and counts. Seeded random tables (1-5 chromosomes, "
+             "0-12 genes, filtered indices, boundary thresholds) are judged the same way.",
+     "note": "Trusted: TLC, the harness table construction and projection, fixed-grid encoding of values. Premise: GenesContiguous, sorted disjoint bins, positive group weight, "
+             "segment ends not cutting bins. Comma labels are judged on the per-gene clause only. By-segment min_probes is left free between the two readings. Sex is passed "
+             "explicitly; diploid_parx_genome is not exercised."})
 
 _ALL = [f"C{n:02d}" for n in range(1, 21)]
 _claimed = {c["id"] for c in CHECKS}
